@@ -36,6 +36,9 @@ def _new_ref(signal_type, value):
     return r
 
 
+POW = z3.Function("pow_spec", z3.IntSort(), z3.IntSort(), z3.IntSort())  # exact integer power, uninterpreted
+
+
 def _const_effect(ex, a):
     return _new_ref(a.signal_type, a.value)
 
@@ -44,7 +47,7 @@ def _arith_effect(ex, a):
     op = a.op
     if not isinstance(op, str):
         raise NotImplementedError("symbolic operator tag")
-    return _new_ref(a.output_type, A.fa({"^": "**"}.get(op, op), den(a.left), den(a.right)))
+    return _new_ref(a.output_type, A.fa({"^": "**"}.get(op, op), den(a.left), den(a.right), POW))
 
 
 def _decider_effect(ex, a):
@@ -159,3 +162,90 @@ is_boolean_producer = Contract(
 _NODE_TYPES = {"output_value": _VREF_SI, "copy_count_from_input": ty.Bool, "value": ty.Int, "op": ty.Str, "left": _VREF_SI, "right": _VREF_SI}
 
 CONTRACTS += [is_boolean_producer, get_operation]
+
+# =================================================================================================
+# K3: operator -> combinator mapping of the simple lowering methods
+# =================================================================================================
+def _lower_expr_effect(ex, a):
+    v = ex.mk(_REF, fresh_name("lowered"), register=True)
+    ex.assume(A.i32(den(v)))
+    return v
+
+
+lower_expr_c = Contract(qualname=EL + "lower_expr", params={"self": _OPQ, "expr": _OPQ}, effect=_lower_expr_effect, verify=False,
+                        note="ASSUMED here (induction over the expression tree): returns an int or a SignalRef whose ghost den is the sub-expression's value")
+alloc_type = Contract(qualname=IRB + "allocate_implicit_type", params={"self": _OPQ}, returns=ty.Str, verify=False, note="fresh implicit type name")
+
+_SIMPLE_USES = dict(_USES)
+_SIMPLE_USES.update({"ExpressionLowerer.lower_expr": lower_expr_c, "IRBuilder.allocate_implicit_type": alloc_type,
+                     "ExpressionLowerer._get_actual_type_from_ref": "skip", "ExpressionLowerer._error": "skip",
+                     "ASTLowerer.ensure_signal_registered": "skip", "opaque.get_expr_type": "skip", "opaque.ensure_signal_registered": "skip"})
+
+
+def _cmp_post(op):
+    return lambda a, res: den(res) == b2i(A.cmp(op, den(a.left_ref), den(a.right_ref)))
+
+
+def _arith_like_post(op):
+    def post(a, res):
+        l, r = den(a.left_ref), den(a.right_ref)
+        if op in ("<<", ">>"):
+            return Implies(And(r >= 0, r <= 31), den(res) == A.fa(op, l, r))
+        return den(res) == A.fa(op, l, r, POW)
+    return post
+
+
+_PARAMS5 = {"self": ty.TObj("ExpressionLowerer", only=("ExpressionLowerer",)), "expr": ty.TObj("BinaryOp", only=("BinaryOp",)),
+            "left_ref": _REF, "right_ref": _REF, "output_type": ty.Str, "left_signal_type": ty.TOpt(ty.Str)}
+_SELF_T2 = {"ir_builder": ty.TObj("IRBuilder", only=("IRBuilder",)), "parent": ty.TOpaque("parent")}
+
+for _op in A.CMP_OPS:
+    CONTRACTS.append(Contract(
+        qualname=EL + "_lower_comparison_op", params=_PARAMS5, requires=_REQ,
+        ensures=[(f"value is [l {_op} r]", _cmp_post(_op)), ("carried on the requested type", lambda a, res: res.signal_type == a.output_type)],
+        uses=_SIMPLE_USES, dynamic_types={"self": _SELF_T2, "expr": {"op": ty.TConcrete(_op)}}, properties=("C01",), min_obligations=2, note=f"op {_op}"))
+
+for _op in ("**", "<<", ">>", "AND", "OR", "XOR"):
+    CONTRACTS.append(Contract(
+        qualname=EL + "_lower_arithmetic_like_op", params=_PARAMS5, requires=_REQ,
+        ensures=[(f"value is l {_op} r (S1)", _arith_like_post(_op)), ("carried on the requested type", lambda a, res: res.signal_type == a.output_type)],
+        uses=_SIMPLE_USES, dynamic_types={"self": _SELF_T2, "expr": {"op": ty.TConcrete(_op)}}, properties=("C01",), min_obligations=2, note=f"op {_op}"))
+
+
+def _unary_post(op):
+    def post(a, res):
+        x = den(CAPTURED_OPERAND[0])
+        if op == "+":
+            return den(res) == x
+        if op == "-":
+            return den(res) == A.wrap32(-x)
+        return den(res) == b2i(x == 0)
+    return post
+
+
+CAPTURED_OPERAND = [None]
+
+
+def _lower_expr_capture(ex, a):
+    v = ex.mk(_REF, fresh_name("lowered"), register=True)
+    ex.assume(A.i32(den(v)))
+    CAPTURED_OPERAND[0] = v
+    return v
+
+
+lower_expr_cap = Contract(qualname=EL + "lower_expr", params={"self": _OPQ, "expr": _OPQ}, effect=_lower_expr_capture, verify=False,
+                          note="as lower_expr_c; remembers the lowered operand for the specification")
+_UN_USES = dict(_SIMPLE_USES)
+_UN_USES["ExpressionLowerer.lower_expr"] = lower_expr_cap
+
+for _op in ("+", "-", "!"):
+    CONTRACTS.append(Contract(
+        qualname=EL + "lower_unary_op",
+        params={"self": ty.TObj("ExpressionLowerer", only=("ExpressionLowerer",)), "expr": ty.TObj("UnaryOp", only=("UnaryOp",))},
+        requires=[],
+        ensures=[(f"value is {_op}x", lambda a, res, _o=_op: _unary_post(_o)(a, res))],
+        uses=_UN_USES, dynamic_types={"self": {"ir_builder": ty.TObj("IRBuilder", only=("IRBuilder",)), "parent": ty.TOpaque("parent"), "semantic": ty.TOpaque("semantic")},
+                                      "expr": {"op": ty.TConcrete(_op), "expr": ty.TObj("Expr", only=("BinaryOp",))}},
+        properties=("C01",), min_obligations=1, note=f"op {_op}"))
+
+CONTRACTS += [lower_expr_c, alloc_type, lower_expr_cap]
